@@ -302,6 +302,14 @@ Theorem C02_convex_hull_ijv_w_correct : forall M ijv indexes, M * M < 2147483648
 Proof. exact convex_hull_ijv_w_correct. Qed.
 Print Assumptions C02_convex_hull_ijv_w_correct.
 
+(* the entry point the compiled kernel is compared with on every run (as written) = the entry point of the exact
+   model, on every wire-format request whose rows lie in the box *)
+Theorem C02_entry_wrap_transfer : forall M x, M * M < 2147483648 ->
+  (forall r, In r (as_rows (arg 0 x)) -> inbox M (r_pt r)) ->
+  entry_hull_ijv_w x = entry_hull_ijv x.
+Proof. exact entry_hull_ijv_w_exact. Qed.
+Print Assumptions C02_entry_wrap_transfer.
+
 (* beyond the bound the kernel as written violates the property (F22) *)
 Theorem C02_convex_wrap_refuted : exists m pts,
   label_ok m pts /\ (forall q, In q pts -> 0 <= fst q < 2147483648 /\ 0 <= snd q <= 2) /\
